@@ -23,6 +23,9 @@ def sh(cmd, **kw):
 
 
 def main():
+    # evidence and replays of runs against a MODIFIED /repo must not overwrite the committed ones
+    os.environ.setdefault('VERIF_EVIDENCE_DIR', '/tmp/cuv-scratch-evidence')
+    os.environ.setdefault('VERIF_REPLAY_DIR', '/tmp/cuv-scratch-replays')
     name = sys.argv[1]
     src = sys.argv[2] if len(sys.argv) > 2 else os.path.join('/tmp/mut', name)
     notes = json.load(open(os.path.join(src, 'notes.json')))
